@@ -130,6 +130,17 @@ ROUND3 = {
 for _pid, _t in ROUND3.items():
     CHECKS[_pid]["text"] += _t
 
+# additions of the fourth round (wave A of that round is already part of the descriptions/commits before it)
+ROUND4 = {
+    "C01": " Round 4: statements also run inside user-defined function bodies, cursor loops (WHILE .. IN) and CASE blocks; COMMIT appears more often so that about 40% of the programs have changes after a COMMIT.",
+    "C07": " Round 4: in 15% of the cut cases the LIMIT / OFFSET / PERCENT / FETCH counts are read from variables, the query runs twice with other integer and float arithmetic in between, and the second result is the one judged.",
+    "C09": " Round 4: sub-check transfers - transactions holding SEVERAL tables for update at once (two counters with constant sum and a log table; two-statement transfers in either order, multi-table UPDATE in either FROM order, a FOR UPDATE reader of both counters whose sum must be 0); opposite acquisition orders deadlock, and the deadlock is broken by delivering the wait timeout to a drawn victim once no process has made progress for a drawn number of steps: the victim must fail with the lock-timeout error, leave nothing of the table it had already changed, and release it.",
+    "C10": " Round 4: sub-check write_fault (commit stopped by a file size limit, then retry / rollback / close) and sub-check async_kill - SIGKILL from outside at drawn instants (fractions of the measured duration of an uninterrupted commit after a marker printed right before COMMIT) on tables of several hundred KiB, so that the death also falls inside bursts of write(2) calls and between un-hooked steps; same old-or-new and recovery oracle.",
+    "C11": " Round 4: ending vanish_while_waiting (the table is removed and its lock released while csvq waits for the lock); in 22% of the cases the leading statements are not in the program but in a csvqrc preload file of the current directory, so errors, EXIT and signals at every verification point also strike during the preload phase.",
+}
+for _pid, _t in ROUND4.items():
+    CHECKS[_pid]["text"] += _t
+
 def main():
     props = [json.loads(l)["id"] for l in open(os.path.join(ROOT, "properties.jsonl")) if l.strip()]
     checks = []
